@@ -312,8 +312,7 @@ int main()
 	FIX8::GlobalLogger::set_levels(FIX8::Logger::Levels(FIX8::Logger::None));
 	vclock::skip_sleeps = true;
 	vclock::set(T0_MS * 1000000LL);
-	char tmpl[] = "/tmp/verif_duo_XXXXXX";
-	g_dir = mkdtemp(tmpl);
+	g_dir = scratch_dir("duo");
 	g_a.outq = &g_ab; g_b.outq = &g_ba;
 	World w;
 	w.listen_on();
